@@ -1,6 +1,7 @@
 """The verifier: generates verification conditions for one function under contract (FUC)
 or one lemma, from the real source, function by function (callees by contract)."""
 import ast
+import os
 import time
 import traceback
 import z3
@@ -87,6 +88,13 @@ class Exec(ExprMixin, StmtMixin, CallMixin, ContractMixin):
         except RecursionError:
             self.obls.append(Obligation(qualname + "#shape:supported-subset", "shape", [], z3.BoolVal(False),
                                         info=dict(reason="recursion limit")))
+        except (AttributeError, TypeError, KeyError, IndexError, AssertionError, ValueError, z3.Z3Exception) as e:
+            # a construct the symbolic executor does not model precisely enough to even reject cleanly: same meaning as Unsupported
+            # (the function left the verified subset); on the unchanged tree this never happens - every FUC executes to the end
+            import traceback as _tb
+            where = _tb.extract_tb(e.__traceback__)[-1]
+            self.obls.append(Obligation(qualname + "#shape:supported-subset", "shape", [], z3.BoolVal(False),
+                                        info=dict(reason="outside the executable subset (%s: %s at %s:%s)" % (type(e).__name__, e, os.path.basename(where.filename), where.lineno))))
         finally:
             self.cur_ci = None
         return self.obls, meta
